@@ -947,7 +947,6 @@ Lemma route_semantics_nonvacuous :
     only_matcher r = Some cm /\ length keys = length vals /\ Forall valid_enc vals /\
     guard_F1 eng_none (rl_hosts r) q = false /\ guard_F4 (rl_methods r) = false /\
     on_params guard_F6 (rl_slash r) q keys vals (cm_params cm) = false /\
-    on_params (guard_F7 true) (rl_slash r) q keys vals (cm_params cm) = false /\
     on_params guard_F8 (rl_slash r) q keys vals (cm_params cm) = false /\
     route_matches true eng_none cm q keys vals = MYes.
 Proof.
@@ -961,6 +960,9 @@ Proof.
 Qed.
 
 (* ------------------------------------------------------------------ statements as they appear in Properties/C03.v *)
+
+Lemma existsb_const_false {A} (l : list A) : existsb (fun _ => false) l = false.
+Proof. induction l; [reflexivity | assumption]. Qed.
 
 Lemma method_list_semantics_full : forall ms l,
   create_method_matcher ms = Ok l ->
@@ -996,7 +998,7 @@ Proof.
   apply (H2 Hr sc Hs); [|exact H8].
   unfold caps_guard_F7, guard_F7_val. cbn [negb andb].
   destruct (negb (slash_eqb sl SOn)); [|reflexivity].
-  induction (named_pairs names segs); [reflexivity | assumption].
+  apply existsb_const_false.
 Qed.
 
 Lemma unnamed_not_exposed : forall names segs k v,
@@ -1006,4 +1008,34 @@ Proof.
   destruct (String.eqb n "*") eqn:E.
   - apply IH.
   - intros [H|H]; [inversion H; subst; apply String.eqb_neq; assumption | exact (IH _ _ _ H)].
+Qed.
+
+Lemma guard_F7_fixed sl q keys vals ps : on_params (guard_F7 true) sl q keys vals ps = false.
+Proof.
+  unfold on_params. induction ps as [|p r IH]; [reflexivity|].
+  cbn [existsb]. rewrite IH, orb_false_r. unfold on_param, guard_F7, guard_F7_val.
+  destruct (assoc_first (pp_name p) keys vals); [|reflexivity].
+  destruct sl; cbn [negb andb]; apply andb_false_r.
+Qed.
+
+(** the tree as it is now (C03-F7 repaired) *)
+Lemma route_matches_iff eng r cr :
+  create_rule r = Ok cr ->
+  forall path cm, In (path, cm) (cr_routes cr) ->
+  exists rt, In rt (rl_routes r) /\ path = rt_path rt /\
+    forall q keys vals,
+      length keys = length vals -> Forall valid_enc vals ->
+      guard_F1 eng (rl_hosts r) q = false ->
+      guard_F4 (rl_methods r) = false ->
+      on_params guard_F6 (rl_slash r) q keys vals (rt_params rt) = false ->
+      on_params guard_F8 (rl_slash r) q keys vals (rt_params rt) = false ->
+      route_matches true eng cm q keys vals =
+      of_bool (spec_scheme (rl_scheme r) q && spec_method (rl_methods r) (q_method q) &&
+               spec_hosts eng (rl_hosts r) q &&
+               forallb (spec_param eng (rl_slash r) q keys vals) (rt_params rt)).
+Proof.
+  intros Hc path cm Hin. destruct (route_semantics true eng r cr Hc path cm Hin) as (rt & H1 & H2 & H3).
+  exists rt. split; [exact H1|]. split; [exact H2|].
+  intros q keys vals Hl Hv G1 G4 G6 G8.
+  exact (H3 q keys vals Hl Hv G1 G4 G6 (guard_F7_fixed _ _ _ _ _) G8).
 Qed.
